@@ -9,7 +9,7 @@
         (finding F-C15-1). *)
 From Coq Require Import List NArith Reals Floats SpecFloat.
 From LinfaVerif Require Import Common.Num Common.NdSum Common.B32 C09.Model C15.Model C15.ModelRepaired C15.Spec
-  C15.ProofsRepaired C15.ProofsExt.
+  C15.ProofsT2 C15.ProofsRepaired C15.ProofsExt.
 Import ListNotations.
 Local Open Scope R_scope.
 
@@ -68,3 +68,19 @@ Proof.
   exists corner64, 0x1.3333333333333p-1%float, 0%float, 0.5%float.
   split; [reflexivity|split; [reflexivity|split; [reflexivity|split; [exact corner64_weight|exact corner64_state]]]].
 Qed.
+
+(** ** memory layouts *)
+
+(** the FTRL gradient over the reals is  g_j = sum_i (p_i - y_i) x_ij  whichever dot kernel the layout of the
+    record matrix selects (contiguous columns: 8-lane unrolled; otherwise sequential): the update is a function
+    of the logical batch alone *)
+Theorem ftrl_gradient_layout_independent : forall contig d (X : list (list R)) (y : list bool) (ps : list R),
+  ftrl_gradient_lay R_ops contig d X y ps = ftrl_gradient R_ops d X y ps.
+Proof. intros. rewrite ftrl_gradient_lay_R, ftrl_gradient_R. reflexivity. Qed.
+
+(** in every arithmetic the layout-aware models specialise to the standard-layout ones *)
+Theorem layout_models_extend_standard : forall F (o : NumOps F),
+  (forall d (X : list (list F)) y ps,
+     ftrl_gradient o d X y ps = ftrl_gradient_lay o (orb (Nat.eqb d 1) (Nat.leb (length X) 1)) d X y ps) /\
+  (forall m tol st (X : list (list F)), km_fit_with_lay o false m tol st X = km_fit_with o m tol st X).
+Proof. intros F o. split; intros; reflexivity. Qed.
